@@ -571,6 +571,18 @@ def rule_rf_json(prog: Program, report: Report) -> None:
             names = tm.instance_names(fn.module, v)
             if names and all(x in IMMUTABLE for x in names):
                 return True, "immutable " + "|".join(x.rsplit(".", 1)[-1] for x in names)
+            if isinstance(v, ast.Name):
+                # a local list built here (`xs = []` ... `xs.append(<ok value>)`) is the explicit-loop
+                # spelling of a comprehension
+                defs = _local_defs(fn.node, v.id)
+                if defs and all(isinstance(d, ast.List) and not d.elts for d in defs):
+                    apps = [c for c in walk_own(fn.node) if isinstance(c, ast.Call) and isinstance(c.func, ast.Attribute) and isinstance(c.func.value, ast.Name) and c.func.value.id == v.id]
+                    if apps and all(c.func.attr == "append" and len(c.args) == 1 and ok_value(c.args[0])[0] for c in apps):  # type: ignore[attr-defined]
+                        return True, "list built here from " + ok_value(apps[0].args[0])[1]
+                if len(defs) == 1:
+                    o, w = ok_value(defs[0])
+                    if o:
+                        return True, w
             return False, f"`{src(v)[:40]}` of type {tm.text(fn.module, v)} may be a mutable container owned by the object"
 
         for d in walk_own(fn.node):
